@@ -20,6 +20,7 @@ PARTIAL = [
     "invariance of max|eig| of the strain rate under rotation is a property of the external eigvalsh (checked numerically)",
 ]
 ASSUMPTIONS = ["instantaneous rates compared at 1e-9 relative (rounding)"]
+JIT_TWIN = ('update',)   # groups of harness/jittwin.py: the numba-compiled code is run on the same battery and compared
 TRUSTED = ["harness/drex.py and harness/solver.py generators"]
 
 TWOFOLDS = [np.diag([1.0, -1.0, -1.0]), np.diag([-1.0, 1.0, -1.0]), np.diag([-1.0, -1.0, 1.0])]
